@@ -389,6 +389,9 @@ def merger_spec(draw):
     for k in range(nprod):
         comps.append({"kind": "model", "name": f"P{k}", "start": 0, "steps": pstep[k], "ins": [], "outs": ["o"], "units": ""})
     inputs = [chr(ord("a") + i) for i in range(npairs)]
+    if draw(st.integers(0, 2)) == 0:
+        # any list of strings is allowed as base names - also ones that look like the weight slots' suffix
+        inputs = [n + draw(st.sampled_from(["", "_weight", "_w", "weight"])) for n in inputs]
     comps.append({"kind": "wsum", "name": "W", "inputs": inputs})
     # value producers need units of one dimension, weight producers are dimensionless -> separate producers
     used_v, used_w = [], []
